@@ -89,6 +89,84 @@ pub fn token_lookalike_cases() -> Vec<(Vec<String>, u32)> {
     v
 }
 
+/// Periods nested `depth` levels deep: ((((u^a v)^b w)^c x)^d ...), every level repeated 2-3 times.
+pub fn nested_periods(rng: &mut Rng, al: &[String], depth: usize) -> String {
+    let mut s = rng.pick(al).repeat(2 + rng.below(2));
+    for _ in 1..depth {
+        let x = rng.pick(al).clone();
+        s.push_str(&x);
+        s = s.repeat(2 + rng.below(2));
+    }
+    s
+}
+
+/// Code points within +-3 of the UTF-8 / UTF-16 / plane boundaries and the surrogate gap.
+pub fn boundary_code_points() -> Vec<char> {
+    let mut v = vec![];
+    for b in [0x80u32, 0x100, 0x800, 0xD800, 0xE000, 0x10000, 0x20000, 0x110000] {
+        for d in -3i64..=3 {
+            if let Some(c) = char::from_u32((b as i64 + d) as u32) {
+                v.push(c);
+            }
+        }
+    }
+    v.sort();
+    v.dedup();
+    v
+}
+
+/// At least 32 test cases of the shape <letter><member of a class> plus literal text resembling the
+/// token of that class, e.g. a0..j3 and `a\d`: (test cases, class flag).
+pub fn many_lookalike_cases() -> Vec<(Vec<String>, u32)> {
+    let table: [(&str, u32, &[&str]); 6] = [
+        ("d", DIGIT, &["0", "1", "2", "3"]),
+        ("w", WORD, &["a", "b", "_", "1"]),
+        ("s", SPACE, &[" ", "\t", "\u{a0}", "\n"]),
+        ("D", NDIGIT, &["a", "b", "-", " "]),
+        ("W", NWORD, &["-", ".", "!", " "]),
+        ("S", NSPACE, &["a", "b", "-", "1"]),
+    ];
+    let mut v = vec![];
+    for (l, f, members) in table {
+        let mut tcs = vec![];
+        for c in "ghijklmnopq".chars() {
+            for m in members {
+                tcs.push(format!("{c}{m}"));
+            }
+        }
+        tcs.push(format!("g\\{l}"));
+        tcs.push(format!("h\\{l}"));
+        tcs.push(format!("\\{l}"));
+        tcs.push(members[0].to_string());
+        v.push((tcs, f));
+    }
+    v
+}
+
+/// One or two long test cases over many distinct symbols of different classes, with early symbols
+/// recurring late (caches / memo tables keyed by character would show here).
+pub fn wide_case(rng: &mut Rng) -> Vec<String> {
+    let mut pool: Vec<char> = vec![];
+    pool.extend("abcdefghijklmnopqrstuvwxyzABCDEFGHIJKLMNOPQRSTUVWXYZ".chars());
+    pool.extend("0123456789 _-.,;:!?\t".chars());
+    pool.extend("\u{e9}\u{e8}\u{fc}\u{df}\u{3b1}\u{3b2}\u{3b3}\u{661}\u{662}\u{a0}\u{2003}\u{4e2d}\u{6587}".chars());
+    let n = 1 + rng.below(2);
+    (0..n)
+        .map(|_| {
+            let mut p = pool.clone();
+            rng.shuffle(&mut p);
+            let k = 34 + rng.below(30);
+            let mut s: Vec<char> = p[..k.min(p.len())].to_vec();
+            // early symbols come back after many others
+            for _ in 0..3 + rng.below(6) {
+                let c = s[rng.below(8)];
+                s.push(c);
+            }
+            s.into_iter().collect()
+        })
+        .collect()
+}
+
 /// Every blank / ignorable character repeated where no atom precedes it (start of the pattern, start
 /// of a group, after `|`), for verbose mode.
 pub fn blank_repeat_cases() -> Vec<Vec<String>> {
@@ -264,7 +342,7 @@ pub fn family(rng: &mut Rng, al: &[String]) -> Vec<String> {
             for _ in 0..n.min(3) {
                 let inner = format!("{}{}", u.repeat(2 + rng.below(2)), v);
                 let mid = format!("{}{}", inner.repeat(2 + rng.below(2)), x);
-                let mut s = mid.repeat(2 + rng.below(2));
+                let mut s = if rng.chance(1, 2) { mid.repeat(2 + rng.below(2)) } else { { let d = 4 + rng.below(2); nested_periods(rng, &[u.clone(), v.clone(), x.clone()], d) } };
                 if rng.chance(1, 3) {
                     s.push_str(&unit(rng));
                 }
@@ -394,7 +472,12 @@ pub fn repeat_family(rng: &mut Rng, al: &[String]) -> Vec<String> {
                 // three levels: ((a^i b)^j c)^k
                 let inner = format!("{}{}", a.repeat(2 + rng.below(2)), b);
                 let mid = format!("{}{}", inner.repeat(2 + rng.below(2)), c);
-                mid.repeat(2 + rng.below(2))
+                if rng.chance(1, 2) {
+                    mid.repeat(2 + rng.below(2))
+                } else {
+                    let d = 4 + rng.below(2);
+                    nested_periods(rng, &[a.clone(), b.clone(), c.clone()], d)
+                }
             }
             _ => {
                 let mut s = String::new();
